@@ -25,7 +25,7 @@ import (
 	"verifharness/gen"
 )
 
-var serSchema = gqlparser.MustLoadSchema(&ast.Source{Name: "ser.graphqls", Input: `type Query { a: Int }`})
+var serSchema = gqlparser.MustLoadSchema(&ast.Source{Name: "ser.graphqls", Input: `type Query { a(v: Int): Int }`})
 
 // serializationPanics: "a panic raised while serializing a value fails only that response with a well-formed error
 // body".  Generated code serializes inside the response function (data.MarshalGQL(&buf)); here the response function
@@ -68,7 +68,13 @@ func serializationPanics(meta *gen.Meta) int {
 		})
 		ts := httptest.NewServer(srv)
 		post := func(accept, op string) (int, string, []byte, error) {
-			req, _ := http.NewRequest("POST", ts.URL, bytes.NewReader([]byte(fmt.Sprintf(`{"query":"query %s { a }","operationName":%q}`, op, op))))
+			// the failing request names its operation and carries variables; the healthy one after it leaves both out, as
+			// clients do - nothing of the failed request may be left for it
+			body := `{"query":"{ a }"}`
+			if op == "Boom" {
+				body = `{"query":"query Boom($v: Int) { a(v: $v) }","operationName":"Boom","variables":{"v":7}}`
+			}
+			req, _ := http.NewRequest("POST", ts.URL, bytes.NewReader([]byte(body)))
 			req.Header.Set("Content-Type", "application/json")
 			req.Header.Set("Accept", accept)
 			resp, err := (&http.Client{Timeout: 3 * time.Second}).Do(req)
